@@ -378,6 +378,9 @@ func runAddCase(o *Oracle, c *AddCase, rep *Report) {
 					if rr.Chance(1, 3) {
 						row["opt"] = fmt.Sprint(rr.Intn(3))
 					}
+					if k%10 == 9 {
+						row = map[string]string{} // a row without any column still takes an id
+					}
 					id, err := w.AddRow(row)
 					if err != nil {
 						dupOrRange.Add(1)
@@ -449,6 +452,9 @@ func runAddCase(o *Oracle, c *AddCase, rep *Report) {
 	for k := 0; k < 40; k++ {
 		id := rr.Intn(c.Total)
 		row := rowsByID[id]
+		if len(row) == 0 {
+			continue
+		}
 		tag := &Ex{Op: "E", C: hx("tag"), V: hx(row["tag"])}
 		probes = append(probes, QCase{E: tag}, QCase{E: &Ex{Op: "A", Kids: []*Ex{tag, {Op: "E", C: hx("col"), V: hx(row["col"])}, {Op: "E", C: hx("w"), V: hx(row["w"])}}}, GB: []string{hx("col")}})
 	}
@@ -477,6 +483,11 @@ func runC18(rep *Report, r *Rng, tier string) {
 		gs = []int{2, 4, 8, 32}
 	}
 	var last *AddCase
+	// past 65536 rows (the in-memory writer's bitmaps get a second container; anything keyed on 16-bit row ids shows)
+	{
+		c := &AddCase{Writer: "mem", Goroutines: 8, Total: 66000, Seed: r.U64()}
+		runAddCase(o, c, rep)
+	}
 	for _, w := range []string{"mem", "big"} {
 		for _, t := range totals {
 			for _, g := range gs {
